@@ -618,6 +618,34 @@ func schemeConsts(fn *ssa.Function) map[string]bool {
 	return out
 }
 
+// schemeConstsDeep adds the constants of the functions of the same package that fn hands a reference
+// to (EqualRepository may leave the per-scheme decision to EqualRegistry).
+func schemeConstsDeep(fn *ssa.Function, depth int) map[string]bool {
+	out := schemeConsts(fn)
+	if depth <= 0 {
+		return out
+	}
+	core.Calls(fn, func(c ssa.CallInstruction) {
+		g := core.CalleeFn(c)
+		if g == nil || g == fn || len(g.Blocks) == 0 || core.FuncPkg(g) != core.FuncPkg(fn) {
+			return
+		}
+		takesRef := false
+		for _, a := range c.Common().Args {
+			if core.IsModNamed(a.Type(), "types/ref", "Ref") {
+				takesRef = true
+			}
+		}
+		if !takesRef {
+			return
+		}
+		for k := range schemeConstsDeep(g, depth-1) {
+			out[k] = true
+		}
+	})
+	return out
+}
+
 func c15R4(p *core.Prog, r *core.Report) {
 	const rule = "C15.R4"
 	r.Rule(rule, "scheme tables agree: every scheme accepted by New / NewHost is printed by CommonName, recognised by IsSetRepo, EqualRegistry and EqualRepository, and served by the client's scheme table", 1)
@@ -638,14 +666,14 @@ func c15R4(p *core.Prog, r *core.Report) {
 	tables := map[string]map[string]bool{}
 	for _, n := range []string{"CommonName", "IsSetRepo"} {
 		if fn := p.MethodOf(rt, n); fn != nil {
-			tables["types/ref.Ref."+n] = schemeConsts(fn)
+			tables["types/ref.Ref."+n] = schemeConstsDeep(fn, 2)
 		} else {
 			r.MissingAnchor(rule, "types/ref.Ref."+n)
 		}
 	}
 	for _, n := range []string{"EqualRegistry", "EqualRepository"} {
 		if fn := p.Func("types/ref", n); fn != nil {
-			tables["types/ref."+n] = schemeConsts(fn)
+			tables["types/ref."+n] = schemeConstsDeep(fn, 2)
 		} else {
 			r.MissingAnchor(rule, "types/ref."+n)
 		}
